@@ -1,20 +1,23 @@
 #!/bin/sh
 # usage: tools/mut.sh <file-relative-to-repo> <python-regex-old> <new> <prop> [tier] [extra runner args]
 # Applies a one-off textual mutation to a scratch copy of /repo (outside /repo and /verif),
-# points the check at it through MIDO_REPO and removes the copy.  Detection testing only.
-set -e
-f="$1"; old="$2"; new="$3"; prop="$4"; tier="${5:-quick}"; shift 5 || shift 4
+# runs the repository's tests on it, points the check at it through MIDO_REPO, removes the copy.
+f="$1"; old="$2"; new="$3"; prop="$4"; tier="${5:-quick}"
+[ $# -ge 5 ] && shift 5 || shift 4
 d=$(mktemp -d /tmp/mut.XXXXXX)
-cp -r /repo/mido "$d/"
-/venv/bin/python - "$d/$f" "$old" "$new" <<'PY'
+cp -r /repo/mido /repo/tests /repo/pyproject.toml "$d/"
+/venv/bin/python - "$d/$f" "$old" "$new" <<'PY' || { rm -rf "$d"; exit 3; }
 import sys,re
 p,old,new=sys.argv[1:4]
 s=open(p).read()
 n=len(re.findall(old,s))
 if n!=1:
     print('pattern matches',n,'times'); sys.exit(3)
+new=new.encode().decode('unicode_escape')
 open(p,'w').write(re.sub(old,lambda m:new,s))
 PY
-(cd "$d" && cp -r /repo/tests . 2>/dev/null; /venv/bin/python -m pytest -q -x -p no:cacheprovider tests 2>&1 | tail -1)
-MIDO_REPO="$d" /verif/run.sh "$prop" "$tier" --no-evidence "$@" 2>&1 | grep -E "^(VIOLATION|HOLDS|INCONCLUSIVE|KNOWN)" | cut -c1-260 | head -8
+echo "tests: $(cd "$d" && PYTHONPATH="$d" /venv/bin/python -m pytest -q -p no:cacheprovider tests 2>&1 | tail -1)"
+MIDO_REPO="$d" /verif/run.sh "$prop" "$tier" --no-evidence "$@" > "$d/out.log" 2>&1
+echo "exit=$?"
+grep -E "^(VIOLATION|HOLDS|INCONCLUSIVE|KNOWN)|^  harness" "$d/out.log" | cut -c1-300 | head -8
 rm -rf "$d"
